@@ -68,9 +68,7 @@ impl Transport {
 		}
 		self.position += 1;
 		if let Some((loop_start, loop_end)) = self.loop_region {
-			while self.position >= loop_end {
-				self.position -= loop_end - loop_start;
-			}
+			self.position = wrap_down(self.position, loop_start, loop_end);
 		}
 		if self.position >= num_frames {
 			self.playing = false;
@@ -82,8 +80,9 @@ impl Transport {
 			return;
 		}
 		if let Some((loop_start, loop_end)) = self.loop_region {
-			while self.position <= loop_start {
-				self.position += loop_end - loop_start;
+			if self.position <= loop_start {
+				let loop_length = loop_end - loop_start;
+				self.position += ((loop_start - self.position) / loop_length + 1) * loop_length;
 			}
 		}
 		if self.position == 0 {
@@ -96,18 +95,26 @@ impl Transport {
 	pub fn seek_to(&mut self, mut position: usize, num_frames: usize) {
 		if let Some((loop_start, loop_end)) = self.loop_region {
 			if position > self.position {
-				while position >= loop_end {
-					position -= loop_end - loop_start;
-				}
-			} else {
-				while position < loop_start {
-					position += loop_end - loop_start;
-				}
+				position = wrap_down(position, loop_start, loop_end);
+			} else if position < loop_start {
+				let loop_length = loop_end - loop_start;
+				position += (loop_start - position + loop_length - 1) / loop_length * loop_length;
 			}
 		}
 		self.position = position;
 		// seeking back into the audio after the end was reached (for example while
 		// the last frames are still being heard) resumes playback
 		self.playing = self.position < num_frames;
+	}
+}
+
+/// Moves a position at or after the end of the loop region back into the region:
+/// what subtracting the loop length until it fits does, but in constant time
+/// (the position can be arbitrarily far away, e.g. after seeking to a huge time).
+fn wrap_down(position: usize, loop_start: usize, loop_end: usize) -> usize {
+	if position >= loop_end {
+		loop_start + (position - loop_start) % (loop_end - loop_start)
+	} else {
+		position
 	}
 }
